@@ -377,6 +377,10 @@ class Model:
                 if got != want:
                     V.append(("py-index:%s" % ("out-of-range-accepted" if want is None else "wrong-slot"), "sim.particles[%d] with N=%d gives slot %s, expected %s after %s [%s]" % (k, n, got, "an exception" if want is None else want, op, tag)))
                     break
+        if kind in ("remove", "remove_hash", "remove_all", "step") and sim.N_active > sim.N and getattr(self, "_nact_ok", True):
+            # the force and energy loops run to N_active: a count beyond N makes them read slots that hold no particle
+            V.append(("%s:N_active>N" % kind, "N_active=%d exceeds N=%d after %s [%s]" % (sim.N_active, sim.N, op, tag)))
+        self._nact_ok = sim.N_active <= sim.N
         if sim.N > sim.N_allocated:
             V.append(("N>N_allocated", "N=%d exceeds N_allocated=%d after %s [%s]" % (sim.N, sim.N_allocated, op, tag)))
         return V
